@@ -523,6 +523,8 @@ fn shrink_case(rt: &tokio::runtime::Runtime, first: &Value) -> Value {
 
 fn worker(a: &Args) {
     let jobs: Vec<Value> = serde_json::from_slice(&std::fs::read(a.extra.get("worker").unwrap()).unwrap()).unwrap();
+    let wdir = a.extra.get("wout").and_then(|p| std::path::Path::new(p).parent().map(|p| p.to_path_buf())).unwrap_or_default();
+    let _ = jail_readonly_root(&[std::path::Path::new("/var/tmp"), std::path::Path::new("/tmp"), &wdir]);
     let rt = tokio::runtime::Builder::new_current_thread().enable_all().build().unwrap();
     let mut res = vec![];
     for j in &jobs {
